@@ -852,7 +852,8 @@ func sendReady[T any](ch chan<- T) bool {
 		return false
 	}
 	if cap(ch) == 0 {
-		panic("vsched: send on unbuffered channel is not supported by the instrumentation")
+		G.Diverged = "send on an unbuffered channel: a rendezvous cannot be executed by the cooperative scheduler (tool limitation, not a verdict)"
+		panic(divergence{G.Diverged})
 	}
 	if len(ch) < cap(ch) {
 		return true
